@@ -93,6 +93,34 @@ def run(ck):
         if numpy.abs(direct - via).max() > 1e-9 * sc:
             ck.fail("apply-vs-propagate", "U applied to a state differs from direct propagation with the same internal step", inp,
                     float(numpy.abs(direct - via).max()))
+        # the same clauses with U presented in another basis (all-times storage is transformed slice by slice)
+        try:
+            from quantarhei import eigenbasis_of
+            rho_obj = ReducedDensityMatrix(data=rho0.copy())
+            ham_p = Hamiltonian(data=H.copy())
+            prop_b = ReducedDensityMatrixPropagator(time, ham_p, RTensor=LindbladForm(ham_p, sbi, as_operators=False))
+            evol = prop_b.propagate(rho_obj, Nref=Nd)
+            with eigenbasis_of(ham):
+                Ue = numpy.array(U.data).copy().reshape(Nt, nn, nn)
+                via_e = numpy.array([numpy.array(U.apply(time.data[i], rho_obj).data) for i in range(Nt)])
+            with eigenbasis_of(ham_p):
+                dir_e = numpy.array(evol.data).copy()
+            back = numpy.array(U.data).reshape(Nt, nn, nn)
+            bad = []
+            if numpy.abs(Ue[0] - numpy.eye(nn)).max() > 1e-9:
+                bad.append(("identity", float(numpy.abs(Ue[0] - numpy.eye(nn)).max())))
+            w2 = max(float(numpy.abs(Ue[i] @ Ue[j] - Ue[i + j]).max()) for i in range(Nt) for j in range(Nt - i))
+            if w2 > 1e-9 * sc * sc:
+                bad.append(("semigroup", w2))
+            if numpy.abs(via_e - dir_e).max() > 1e-9 * sc:
+                bad.append(("apply-vs-propagate", float(numpy.abs(via_e - dir_e).max())))
+            if numpy.abs(back - Um).max() > 1e-9 * sc:
+                bad.append(("restore", float(numpy.abs(back - Um).max())))
+            for k_, v_ in bad:
+                ck.fail("other-basis:" + k_, "with U read inside eigenbasis_of(H): %s clause fails" % k_, inp, v_)
+            ck.case(("other-basis", n, Nt, step, Nd, H.tobytes()), nontrivial=bool(coupled) and n >= 3, kind="other-basis", dim=n)
+        except Exception as e:
+            ck.fail("raises:other-basis", "reading / applying U inside a basis context raised %r" % (e,), inp)
         # step by step (jit), with and without saving
         k = rng.randint(1, Nt - 1)
         # second pass: a time axis with as many points as the system has states (array shapes coincide), all its steps
